@@ -113,6 +113,18 @@ fn km_text_scalar_str2() {
     let mut t = Txt::new();
     t.string(s.payload());
     assert!(t.same(&to_string(doc.as_slice())));
+}
+
+/// the same for a 1-byte string, compact and pretty
+#[kani::proof]
+#[kani::unwind(20)]
+#[kani::stub(crate::parser::parse_value, no_text)]
+fn km_text_scalar_str1() {
+    let s = sc_str1().it;
+    let doc = layout_scalar(&s);
+    let mut t = Txt::new();
+    t.string(s.payload());
+    assert!(t.same(&to_string(doc.as_slice())));
     assert!(t.same(&to_pretty_string(doc.as_slice())));
 }
 
@@ -289,48 +301,64 @@ fn hi(it: &It) -> bool {
     ok
 }
 
-/// scalar documents: null|bool|"" |1-byte|2-byte strings against each other (all kinds, prefix strings)
+/// scalar documents, every pair of the concrete shapes null|bool, "", 1-byte string, 2-byte string (prefix strings included)
 #[kani::proof]
 #[kani::unwind(20)]
 #[kani::stub(crate::parser::parse_value, no_text)]
 fn km_cmpkey_scalars() {
-    let pick = |k: u8| match k {
-        0 => sc_w0().it,
-        1 => sc_str0().it,
-        2 => sc_str1().it,
-        _ => sc_str2().it,
-    };
-    let ka: u8 = kani::any();
-    let kb: u8 = kani::any();
-    kani::assume(ka < 4 && kb < 4);
-    let a = pick(ka);
-    let b = pick(kb);
-    check_keys(&layout_scalar(&a), &layout_scalar(&b));
+    let w0 = layout_scalar(&sc_w0().it);
+    let w0b = layout_scalar(&sc_w0().it);
+    let s0 = layout_scalar(&sc_str0().it);
+    let s1 = layout_scalar(&sc_str1().it);
+    let s1b = layout_scalar(&sc_str1().it);
+    let s2 = layout_scalar(&sc_str2().it);
+    check_keys(&w0, &w0b);
+    check_keys(&w0, &s1);
+    check_keys(&s0, &s1);
+    check_keys(&s1, &s1b);
+    check_keys(&s1, &s2);
+    check_keys(&s2, &s1);
+    check_keys(&s2, &w0);
 }
 
-/// arrays [s, x] against [s', y]: s a 1-byte string, s' a 2-byte string (s may be a prefix of s'), x, y null|bool|1-byte
-/// strings: the element after the shorter string meets the tail of the longer string in the key
+/// arrays [s, x] against [s', y]: s a 1-byte string, s' a 2-byte string (s may be a prefix of s'), x null|bool, y a 1-byte
+/// string: the element after the shorter string meets the tail of the longer string in the key
 #[kani::proof]
 #[kani::unwind(30)]
 #[kani::stub(crate::parser::parse_value, no_text)]
 fn km_cmpkey_array_prefix() {
-    let a = [sc_str1().it, if kani::any() { sc_w0().it } else { sc_str1().it }];
-    let b = [sc_str2().it, if kani::any() { sc_w0().it } else { sc_str1().it }];
-    kani::assume(hi(&a[0]) && hi(&a[1]) && hi(&b[0]) && hi(&b[1]));
+    let a = [sc_str1().it, sc_w0().it];
+    let b = [sc_str2().it, sc_str1().it];
+    kani::assume(hi(&a[0]) && hi(&b[0]) && hi(&b[1]));
     check_keys(&layout_array(&a), &layout_array(&b));
     check_keys(&layout_array(&b), &layout_array(&a));
 }
 
-/// arrays of different length: [x] against [x', y] and [] against [x]
+/// the same with a string after the shorter string: [s, t] against [s', x]
+#[kani::proof]
+#[kani::unwind(30)]
+#[kani::stub(crate::parser::parse_value, no_text)]
+fn km_cmpkey_array_prefix2() {
+    let a = [sc_str1().it, sc_str1().it];
+    let b = [sc_str2().it, sc_w0().it];
+    kani::assume(hi(&a[0]) && hi(&a[1]) && hi(&b[0]));
+    check_keys(&layout_array(&a), &layout_array(&b));
+    check_keys(&layout_array(&b), &layout_array(&a));
+}
+
+/// arrays of different length: [x] against [x', y], [s] against [s', y], [] against [x]
 #[kani::proof]
 #[kani::unwind(30)]
 #[kani::stub(crate::parser::parse_value, no_text)]
 fn km_cmpkey_array_len() {
-    let a = [if kani::any() { sc_w0().it } else { sc_str1().it }];
-    let b = [if kani::any() { sc_w0().it } else { sc_str1().it }, sc_w0().it];
-    kani::assume(hi(&a[0]) && hi(&b[0]));
+    let a = [sc_w0().it];
+    let b = [sc_w0().it, sc_w0().it];
+    let c = [sc_str1().it];
+    let d = [sc_str1().it, sc_w0().it];
+    kani::assume(hi(&c[0]) && hi(&d[0]));
     check_keys(&layout_array(&a), &layout_array(&b));
     check_keys(&layout_array(&b), &layout_array(&a));
+    check_keys(&layout_array(&c), &layout_array(&d));
     check_keys(&layout_array(&[]), &layout_array(&a));
 }
 
@@ -360,9 +388,9 @@ fn km_cmpkey_nested() {
 #[kani::stub(crate::parser::parse_value, no_text)]
 fn km_cmpkey_object() {
     let k = key1();
-    let v = if kani::any() { sc_w0().it } else { sc_str1().it };
+    let v = sc_str1().it;
     let k1 = key1();
-    let v1 = if kani::any() { sc_w0().it } else { sc_str1().it };
+    let v1 = sc_str1().it;
     let k2 = key2();
     let w = sc_w0().it;
     kani::assume(hi(&k) && hi(&v) && hi(&k1) && hi(&v1) && hi(&k2) && key_lt(&k1, &k2));
@@ -389,17 +417,28 @@ fn km_cmpkey_prefix_lowbyte() {
 }
 
 // ------------------------------------------------------------------ C02 parser totality on short inputs
-const ALPHABET: [u8; 18] = [
-    b'[', b']', b'{', b'}', b'"', b'\\', b'u', b't', b'r', b'n', b',', b':', b'0', b'1', b'-', b'.', b'e', b' ',
-];
+/// alphabet of 18 symbols: [ ] { } " \ u t r n , : 0 1 - . e space
+fn sym(k: u8) -> u8 {
+    match k {
+        0 => b'[', 1 => b']', 2 => b'{', 3 => b'}', 4 => b'"', 5 => b'\\', 6 => b'u', 7 => b't', 8 => b'r',
+        9 => b'n', 10 => b',', 11 => b':', 12 => b'0', 13 => b'1', 14 => b'-', 15 => b'.', 16 => b'e', _ => b' ',
+    }
+}
+
+/// the float conversion of the external crate fast_float2 is replaced by an arbitrary answer (value or error)
+fn ff_any<F>(s: &[u8]) -> Option<(F, usize)> {
+    let n: usize = kani::any();
+    kani::assume(n <= s.len());
+    if kani::any() { None } else { Some((unsafe { core::mem::zeroed() }, n)) }
+}
 
 fn parse_total(maxlen: usize) {
     let mut raw = [0u8; 5];
     let mut i = 0;
     while i < maxlen {
-        let k: usize = kani::any();
-        kani::assume(k < ALPHABET.len());
-        raw[i] = ALPHABET[k];
+        let k: u8 = kani::any();
+        kani::assume(k < 18);
+        raw[i] = sym(k);
         i += 1;
     }
     let len: usize = kani::any();
@@ -412,23 +451,34 @@ fn parse_total(maxlen: usize) {
     }
 }
 
-/// every input of length <= 3 over the 18-symbol alphabet `[ ] { } " \ u t r n , : 0 1 - . e space`
+/// every input of length <= 2 over the 18-symbol alphabet
 #[kani::proof]
 #[kani::unwind(8)]
+#[kani::stub(fast_float2::parse::parse_float, ff_any)]
+fn km_parse_total2() {
+    parse_total(2);
+}
+
+/// every input of length <= 3
+#[kani::proof]
+#[kani::unwind(8)]
+#[kani::stub(fast_float2::parse::parse_float, ff_any)]
 fn km_parse_total3() {
     parse_total(3);
 }
 
-/// every input of length <= 4 over the same alphabet
+/// every input of length <= 4
 #[kani::proof]
 #[kani::unwind(8)]
+#[kani::stub(fast_float2::parse::parse_float, ff_any)]
 fn km_parse_total4() {
     parse_total(4);
 }
 
-/// every input of length <= 5 over the same alphabet
+/// every input of length <= 5
 #[kani::proof]
 #[kani::unwind(8)]
+#[kani::stub(fast_float2::parse::parse_float, ff_any)]
 fn km_parse_total5() {
     parse_total(5);
 }
